@@ -388,10 +388,10 @@ def _leak_path(prog, f, tt, call, al, reach_ok, rem):
 
 
 # ------------------------------------------------------------------ R-UAF
-def r_uaf(ctx, prog, scope_units=None):
+def r_uaf(ctx, prog, scope_units=None, min_sites=30):
     R = 'R-UAF'
     ctx.rule(R, 'no pointer is used (dereferenced, passed on, freed again) after it was freed: neither the SSA value, nor a reload of '
-             'the member it was loaded from without an intervening assignment', floor=30)
+             'the member it was loaded from without an intervening assignment', floor=1)
     n = 0
     for f in prog.all_functions:
         if not _in_scope(prog, f, scope_units):
@@ -414,7 +414,7 @@ def r_uaf(ctx, prog, scope_units=None):
                 bad = _reload_use_after(prog, f, tt, c, t[1])
             ctx.instance(R, bad is None, bad or c, '%s:free#%d' % (f.name, _ordinal(f, c)),
                          '%s: %s freed at %s is used again at %s' % (f.name, show(t)[:60], c.loc(), bad.loc() if bad else ''))
-    ctx.need(n >= 30, R, 'only %d deallocation sites analysed' % n)
+    ctx.need(n >= min_sites, R, 'only %d deallocation sites analysed' % n)
 
 
 def _walk_from(f, start_inst, stop_pred, visit):
